@@ -25,6 +25,7 @@ HARNESSES = [
  dict(name='max_pool2d', src='harnesses/C17.c', func='h_max_pool2d', kernels=['C17_pool'], unwind=6, bounds='view::max_pool2d; ' + PB, quick=QUICK, thorough=ALL + [_p(2, 2, 2, 1, 1, 1, 1, n=2, c=2), _p(3, 3, 2, 2, 2, 2, 1, n=1, c=2)]),
  dict(name='avg_pool2d', src='harnesses/C17.c', func='h_avg_pool2d', kernels=['C17_pool'], unwind=6, backend='cadical', timeout=600,
       bounds='view::avg_pool2d (float32 result); ' + PB, quick=[QUICK[3], QUICK[2], QUICK[0]], thorough=ALL),
+ dict(name='max_pool2d_i8', src='harnesses/C17.c', func='h_max_pool2d_i8', kernels=['C17_pool'], unwind=6, bounds='view::max_pool2d on SIGNED int8 data (negative maxima); ' + PB, quick=[QUICK[0], QUICK[3], QUICK[4]], thorough=QUICK),
  dict(name='max_pool2d_fn', src='harnesses/C17.c', func='h_max_pool2d', kernels=['C17_pool'], unwind=6, bounds='fn::apply(get_function_composition(max_pool2d view), its operands): the extracted functor with its attributes (kernel, stride, ceil mode); ' + PB,
       quick=[dict(c, VIA_FN=1) for c in (QUICK[3], QUICK[5])], thorough=[dict(c, VIA_FN=1) for c in QUICK]),
  dict(name='avg_pool2d_fn', src='harnesses/C17.c', func='h_avg_pool2d', kernels=['C17_pool'], unwind=6, backend='cadical', timeout=600,
